@@ -93,6 +93,18 @@ Definition code_to_char (digits : str) : bres N :=
   | Some code => match char_from_u32 code with Some ch => BOk ch | None => BPanic P_char end
   end.
 
+(** value.rs: the character after the backslash of an EscapedCharacter (the match on pair.as_str()) *)
+Definition escaped_char (e : N) : bres N :=
+  if N.eqb e 34 then BOk 34%N
+  else if N.eqb e 92 then BOk 92%N
+  else if N.eqb e 47 then BOk 47%N
+  else if N.eqb e 98 then BOk 8%N
+  else if N.eqb e 102 then BOk 12%N
+  else if N.eqb e 110 then BOk 10%N
+  else if N.eqb e 114 then BOk 13%N
+  else if N.eqb e 116 then BOk 9%N
+  else BPanic P_shape.
+
 Definition str_to_operation_type (o : str) : bres optype :=
   if str_eqb o [113;117;101;114;121]%N then BOk Query
   else if str_eqb o [109;117;116;97;116;105;111;110]%N then BOk Mutation
@@ -122,16 +134,15 @@ Definition build_string_char (p : pr) : bres N :=
     | R_EscapedUnicode4 => code_to_char (skipn 2 (as_str c))
     | R_EscapedCharacter =>
         match as_str c with
-        | [92; 34] => BOk 34 | [92; 92] => BOk 92 | [92; 47] => BOk 47 | [92; 98] => BOk 8
-        | [92; 102] => BOk 12 | [92; 110] => BOk 10 | [92; 114] => BOk 13 | [92; 116] => BOk 9
+        | [_; e] => escaped_char e
         | _ => BPanic P_shape
-        end%N
+        end
     | R_NormalStringCharacter => match as_str c with ch :: _ => BOk ch | [] => BPanic P_shape end
     | _ => BPanic P_shape
     end).
 
 (** value.rs build_string_value: (position, value).  A block string is returned raw: the text
-    between the triple quotes, no indentation removal, no unescaping of \""" . *)
+    between the triple quotes, no indentation removal, no unescaping of an escaped triple quote. *)
 Definition build_string_value (p : pr) : bres (pos * str) :=
   only_child p (fun c =>
     let position := to_pos c in
